@@ -47,7 +47,7 @@ class JSONReader(TextToModel):
 def parse_tree(parent: Optional[Feature], feature_node: Dict[str, Any]) -> Feature:
     """Parse the tree structure and returns the root feature."""
     feature_name = feature_node['name']
-    is_abstract = feature_node['abstract']
+    is_abstract = feature_node['abstract'] in (True, 'True')  # the writer stores str(bool)
     feature = Feature(name=feature_name, parent=parent, is_abstract=is_abstract)
 
     parse_attributes(feature, feature_node)
